@@ -795,6 +795,17 @@ func (x *Exec) siteAsserts(st *State, fr *Frame, kind, arg string, bind map[stri
 	if x.contract == nil || len(st.frames) == 0 || fr != st.frames[0] {
 		return
 	}
+	if kind == "deepcall" {
+		found := false
+		for _, d := range x.contract.Directives["site"] {
+			if strings.Contains(d, "deepcall ") {
+				found = true
+			}
+		}
+		if !found {
+			return
+		}
+	}
 	for _, key := range []string{"site"} {
 		for _, d := range x.contract.Directives[key] {
 			parts := strings.SplitN(d, " assert ", 2)
@@ -813,7 +824,8 @@ func (x *Exec) siteAsserts(st *State, fr *Frame, kind, arg string, bind map[stri
 			if len(hdr) > 1 && hdr[1] != arg {
 				// "call Type.Method": qualified form, matched against the callee's full name
 				q := strings.NewReplacer("(", "", ")", "", "*", "").Replace(x.curCallee)
-				if !(kind == "call" && strings.Contains(hdr[1], ".") && x.curCallee != "" && strings.HasSuffix(q, "."+hdr[1]) || (kind == "call" && strings.Contains(hdr[1], ".") && strings.HasSuffix(q, "/"+hdr[1]))) {
+				isCall := kind == "call" || kind == "deepcall"
+				if !(isCall && strings.Contains(hdr[1], ".") && x.curCallee != "" && (q == hdr[1] || strings.HasSuffix(q, "."+hdr[1]) || strings.HasSuffix(q, "/"+hdr[1]))) {
 					continue
 				}
 			}
